@@ -283,3 +283,48 @@ M('c11_remove_down_wrong_delay', ['C11'], ['C11-R4'], 'forget-timer scheduled af
   (LIB, 'runtime.submit_after(Timer::RemoveDown(id.clone()), self.config.remove_down_after);', 'runtime.submit_after(Timer::RemoveDown(id.clone()), self.config.suspect_to_down_after);'))
 M('c11_gossip_on_failed_apply', ['C11', 'C15'], ['C11-R3', 'C11-R4'], 'updates are queued for gossip even when nothing was applied',
   (LIB, '        if summary.apply_successful {\n', '        if summary.apply_successful || !summary.is_active_now {\n'))
+
+# ---------------------------------------------------------------- C12
+PROBE = 'src/probe.rs'
+M('c12_ack_any_number', ['C12'], ['C12-R1'], 'an Ack with any probe number counts as evidence',
+  (PROBE, '        if probeno == self.probe_number\n            && self', '        if (probeno == self.probe_number || probeno == 0)\n            && self'))
+M('c12_ack_from_anyone', ['C12'], ['C12-R1'], 'an Ack from any member counts as evidence for the probed one',
+  (PROBE, '                .is_some_and(|direct| direct.id() == from)', '                .is_some_and(|_direct| true)'))
+M('c12_indirect_ack_from_unasked', ['C12'], ['C12-R1'], 'a ForwardedAck from a member that was not asked counts',
+  (PROBE, '        if let Some(position) = self.indirect.iter().position(|id| id == from) {\n            self.indirect_ack_count += 1;',
+   '        if self.indirect.is_empty() {\n            self.indirect_ack_count += 1;\n            return true;\n        }\n        if let Some(position) = self.indirect.iter().position(|id| id == from) {\n            self.indirect_ack_count += 1;'))
+M('c12_indirect_double_count', ['C12'], ['C12-R1'], 'an asked helper can be counted twice (not removed)',
+  (PROBE, '            // Ensure we can\'t double count the same candidate\n            self.indirect.swap_remove(position);\n', '            let _ = position;\n'))
+M('c12_clear_keeps_evidence', ['C12', 'C13'], ['C12-R1'], 'evidence of the previous round survives clear()',
+  (PROBE, '        self.direct_ack_ok = false;\n        self.indirect_ack_count = 0;', '        self.indirect_ack_count = 0;'))
+M('c12_forwardedack_number_ignored', ['C12'], ['C12-R2'], 'ForwardedAck reported with the current probe number instead of the one it carries',
+  (LIB, 'if self.probe.receive_indirect_ack(&src, probe_number) {', 'if self.probe.receive_indirect_ack(&src, self.probe.probe_number()) {'))
+M('c12_ack_credited_to_origin', ['C12'], ['C12-R2'], 'ForwardedAck credited to the origin named in the message rather than the sender',
+  (LIB, 'if self.probe.receive_indirect_ack(&src, probe_number) {', 'if self.probe.receive_indirect_ack(&origin, probe_number) {'))
+M('c12_pingreq_after_success', ['C12'], ['C12-R3'], 'indirect probes are sent even if the Ack already arrived',
+  (LIB, '                if self.probe.succeeded() {\n                    // We received an Ack already, nothing else to do', '                if self.probe.succeeded() && self.members.num_active() == 1 {\n                    // We received an Ack already, nothing else to do'))
+M('c12_pingreq_to_target', ['C12'], ['C12-R3'], 'the probed member itself may be asked to probe itself',
+  (LIB, '                    |candidate| candidate != &probed_id,\n', '                    |_candidate| true,\n'))
+M('c12_pingreq_wrong_number', ['C12'], ['C12-R3'], 'PingReq carries the previous probe number',
+  (LIB, '                            probe_number: self.probe.probe_number(),\n                        },\n                        &mut runtime,', '                            probe_number: self.probe.probe_number().wrapping_sub(1),\n                        },\n                        &mut runtime,'))
+M('c12_relay_origin_swapped', ['C12'], ['C12-R4'], 'IndirectPing names the relay itself as origin',
+  (LIB, '                    Message::IndirectPing {\n                        origin: src,', '                    Message::IndirectPing {\n                        origin: self.identity.clone(),'))
+M('c12_indirectack_to_origin', ['C12'], ['C12-R4'], 'IndirectAck is sent straight to the origin instead of the relay',
+  (LIB, '''                self.send_message(
+                    src,
+                    Message::IndirectAck {
+                        target: origin,''', '''                self.send_message(
+                    origin.clone(),
+                    Message::IndirectAck {
+                        target: origin,'''))
+M('c12_ack_number_not_echoed', ['C12'], ['C12-R4'], 'Ack does not echo the probe number of the Ping',
+  (LIB, 'self.send_message(src, Message::Ack(probe_number), runtime)?;', 'self.send_message(src, Message::Ack(probe_number.wrapping_add(1)), runtime)?;'))
+M('c12_relay_self_check_dropped', ['C12'], ['C12-R4'], 'a PingReq naming ourselves as target is relayed to ourselves',
+  (LIB, '                if target == self.identity {\n                    return Err(Error::IndirectForOurselves);\n                }\n                self.send_message(\n                    target,\n                    Message::IndirectPing {',
+   '                self.send_message(\n                    target,\n                    Message::IndirectPing {'))
+M('c12_replies_when_undead', ['C12', 'C03'], ['C12-R4'], 'a defunct instance keeps answering probes',
+  (LIB, '        if self.connection_state != ConnectionState::Connected {\n            return custom_broadcasts_result;', '        if self.connection_state == ConnectionState::Disconnected {\n            return custom_broadcasts_result;'))
+M('c12_suspect_twice', ['C12', 'C11'], ['C12-R5'], 'a second suspicion timer is scheduled when the record was already Suspect',
+  (LIB, '                if is_active_now {\n                    // We check for summary.apply_successful prior to logging', '                if !apply_successful {\n                    runtime.submit_after(Timer::ChangeSuspectToDown { member_id: failed.id().clone(), incarnation: failed.incarnation(), token: self.timer_token }, self.config.suspect_to_down_after);\n                }\n                if is_active_now {\n                    // We check for summary.apply_successful prior to logging'))
+M('c12_probe_number_not_advanced', ['C12'], ['C12-R5'], 'probe number only advanced every other round',
+  (PROBE, '        self.probe_number = self.probe_number.wrapping_add(1);', '        if self.indirect.capacity() > 0 {\n            self.probe_number = self.probe_number.wrapping_add(1);\n        }'))
